@@ -35,13 +35,13 @@ ASSUMPTIONS = [
     "held means: held on the executions listed, not verified for all values",
 ]
 MINIMA = {"quick": {"fields_compared": 3000, "qcow2_snapshots_compared": 200, "locator_entries_compared": 60, "header_extensions_compared": 150},
-          "thorough": {"fields_compared": 30000}}
+          "thorough": {"fields_compared": 500000}}
 MECH = "metadata"
 FORMATS = ["qcow2", "qcow2", "qcow2-snap", "qcow2-snap", "vhdx", "vhdx-parent", "vmdk-desc", "vmdk-desc", "vmdk-embedded", "vhd", "vdi", "hds", "hdd-desc", "hdd-desc"]
 
 
 def plan(tier: str, seed: int) -> list[dict]:
-    n = 40 if tier == "quick" else 400
+    n = 40 if tier == "quick" else 2500
     return [{"fmt": f, "i": j * 100 + i} for j, f in enumerate(FORMATS) for i in range(n)]
 
 
